@@ -9,6 +9,7 @@ import (
 
 	"fmt"
 	"math"
+	"runtime"
 )
 
 // A Mapper is an Operator that can subdivide itself.
@@ -25,6 +26,9 @@ type Mapper interface {
 // chunk size can reduce the impact of divergence in time for processing chunks, but may add
 // to overhead.
 func Map(set Mapper, threads, maxChunkSize int) (results []interface{}, err error) {
+	if threads < 1 {
+		threads = runtime.GOMAXPROCS(0)
+	}
 	queue := make(chan Operator, 1)
 	p := NewProcessor(queue, 0, threads)
 	defer p.Stop()
